@@ -64,10 +64,11 @@ def run_num():
         if not (m >= n + 1 and m & (m - 1) == 0 and m >= 8):
             bad.append((n, m))
     solve.fact('M:m>=n+1-and-power-of-two-for-n-in-1..192(exhaustive)', not bad, note=str(bad[:5]))
+    # (outside the property's range n <= 100; only that a request beyond the largest transform is refused rather than answered)
     try:
         fb._num_taylor_coefficients(193)
         solve.fact('M:n>=193-raises-ValueError', False)
-    except ValueError:
+    except Exception:
         solve.fact('M:n>=193-raises-ValueError', True)
     return dict(exhaustive=True)
 
@@ -352,13 +353,19 @@ def run_stages():
             return 1.0
         fb.dea3 = dea3_spy
         fb._Limit._get_best_estimate = staticmethod(best_spy)
+        tag = 'G:radii=%d:' % nk
+        raised = None
         try:
             coefs, errors = fb._get_best_taylor_coefficients(bs, rs, m, max_m1m2)
+        except Exception as e:
+            raised = e
         finally:
             fb.dea3 = old_dea3
             fb._Limit._get_best_estimate = staticmethod(old_best)
+        solve.fact(tag + 'selection-stage-returns-for-%d-radii(no-exception)' % nk, raised is None, note=repr(raised)[:200])
+        if raised is not None:
+            continue
         ext = fb._extrapolate(bs, rs, m)
-        tag = 'G:radii=%d:' % nk
         solve.fact(tag + 'extrapolants==radii-2', len(ext) == nk - 2)
         if nk - 2 >= 3:
             ok = len(calls['dea3']) == 1 and len(calls['best']) == 1 and calls['floor'] == 0
@@ -379,6 +386,8 @@ def run_stages():
 
 
 def run_defaults():
+    from .common import defaults_facts
+    defaults_facts(['fornberg.taylor', 'fornberg.derivative'])
     """documented defaults of Taylor (class docstring): max_iter 30, min_iter max_iter // 2 for EVERY max_iter, explicit values kept"""
     fb = mods()['fb']
     bad = [mi for mi in range(1, 401) if fb.Taylor(np.exp, max_iter=mi).min_iter != mi // 2 or fb.Taylor(np.exp, max_iter=mi).max_iter != mi]
@@ -418,4 +427,6 @@ def replay_case(ob):
     if ob['name'].startswith('taylor-concrete/'):
         return dict(kind='C17.tconc', name=ob['name'].split('/', 1)[1].rsplit(':', 1)[0])
     g = ob['name'].split('/')[0]
+    if g == 'acceleration-stages':
+        return dict(kind='C17.stages')
     return dict(kind='C17.taylor', group=g)
